@@ -703,6 +703,15 @@ Example refusal_symlink :
   out c = [s "proj"; s "src"] /\ refuse c = true.
 Proof. vm_compute. auto. Qed.
 
+Example out_clean_nonvacuous :
+  links_clean [([s "proj"; s "lnk"], [s "elsewhere"; s "real"])] /\
+  out (normalise_cfg [([s "proj"; s "lnk"], [s "elsewhere"; s "real"])] [s "proj"] [s "<ford>"]
+         {| r_out := rel ["."; "lnk"; ".."; "lnk"; "sub"; "."]; r_out_meta := rel ["doc"]; r_exclude_dir := [];
+            r_graph_dir := None; r_src := [rel ["src"]]; r_media := None; r_css := None; r_favicon := None;
+            r_mathjax := None; r_page_dir := None; r_incl_src := true; r_graph := false; r_search := false;
+            r_externalize := false |}) = [s "elsewhere"; s "real"; s "sub"].
+Proof. split; [repeat constructor | vm_compute; reflexivity]. Qed.
+
 Example no_source_deleted_nonvacuous :
   refuse w_cfg = false /\ In [s "proj"; s "src"] (srcs w_cfg) /\
   discovered w_cfg [s "proj"; s "src"; s "m.f90"] = true /\
